@@ -722,6 +722,17 @@ class Spec:
         self.reverts = []     # z3 Bool disjuncts
         self.logs = []        # [(guard, ty, value)]  (in program order)
         self.depth = 0
+        self.fresh_on_trap = False   # if set, a trapping arithmetic op yields an unconstrained value
+        self.traps = []              # [(condition under which it fires, fresh z3 constant)]
+
+    def trap(self, guard, cond, res):
+        """register a trapping operation; returns the value the evaluation continues with"""
+        self.revert_if(guard, cond)
+        if not self.fresh_on_trap or not z3.is_bv(res):
+            return res
+        f = z3.BitVec(f'trap_{len(self.traps)}', res.size())
+        self.traps.append((z3.And(guard, cond), f))
+        return z3.If(cond, f, res)
 
     def revert_if(self, guard, cond=None):
         c = guard if cond is None else z3.And(guard, cond)
@@ -872,24 +883,19 @@ def ev(e, fr, spec, g):
             # small widths: the mathematical result fits 64 bits; it must not exceed the type's max
             L, R = z3.ZeroExt(64 - w, l), z3.ZeroExt(64 - w, r)
             s_ = (L + R) if op == '+' else (L * R)
-            spec.revert_if(g, z3.UGT(s_, z3.BitVecVal((1 << w) - 1, 64)))
-            return z3.Extract(w - 1, 0, s_)
+            return spec.trap(g, z3.UGT(s_, z3.BitVecVal((1 << w) - 1, 64)), z3.Extract(w - 1, 0, s_))
         if op == '+':
-            spec.revert_if(g, z3.ULT(l + r, l))
-            return l + r
+            return spec.trap(g, z3.ULT(l + r, l), l + r)
         if op == '-':
-            spec.revert_if(g, z3.ULT(l, r))
-            return l - r
+            return spec.trap(g, z3.ULT(l, r), l - r)
         if op == '*':
-            spec.revert_if(g, z3.Not(z3.BVMulNoOverflow(l, r, False)))
-            return l * r
+            return spec.trap(g, z3.Not(z3.BVMulNoOverflow(l, r, False)), l * r)
         if op in ('/', '%'):
-            spec.revert_if(g, r == 0)
             if w < 64:
                 # same quotient/remainder, computed on the zero-extended operands
                 L, R = z3.ZeroExt(64 - w, l), z3.ZeroExt(64 - w, r)
-                return z3.Extract(w - 1, 0, z3.UDiv(L, R) if op == '/' else z3.URem(L, R))
-            return z3.UDiv(l, r) if op == '/' else z3.URem(l, r)
+                return spec.trap(g, r == 0, z3.Extract(w - 1, 0, z3.UDiv(L, R) if op == '/' else z3.URem(L, R)))
+            return spec.trap(g, r == 0, z3.UDiv(l, r) if op == '/' else z3.URem(l, r))
         if op == '&':
             return l & r
         if op == '|':
